@@ -260,11 +260,11 @@ def c02_d(ctx: Ctx):
     return res
 
 
-@rule("C02-e")
 def _single_unpack(t, name):
     return isinstance(t, (ast.Tuple, ast.List)) and len(t.elts) == 1 and isinstance(t.elts[0], ast.Name) and t.elts[0].id == name
 
 
+@rule("C02-e")
 def c02_e(ctx: Ctx):
     """open_job(id=...) hands out a directory_known handle only after existence was established from the directory."""
     R = "C02-e"
